@@ -431,14 +431,22 @@ fn parse_backend(input: ParseStream) -> Result<Backend> {
     let content;
     braced!(content in input);
 
-    let mut prologue = None;
-    let mut epilogue = None;
+    let mut prologue: Option<String> = None;
+    let mut epilogue: Option<String> = None;
+
+    // A block may hold several prologues and epilogues; they add up, in source order.
+    fn append(existing: &mut Option<String>, new: String) {
+        *existing = Some(match existing.take() {
+            Some(text) => format!("{text}\n{new}"),
+            None => new,
+        });
+    }
 
     while !content.is_empty() {
         if let Some(new_prologue) = parse_block::<kw::prologue>(&content, kw::prologue)? {
-            prologue = Some(new_prologue);
+            append(&mut prologue, new_prologue);
         } else if let Some(new_epilogue) = parse_block::<kw::epilogue>(&content, kw::epilogue)? {
-            epilogue = Some(new_epilogue);
+            append(&mut epilogue, new_epilogue);
         } else {
             return Err(content.error("expected prologue or epilogue"));
         }
